@@ -10,6 +10,7 @@
   `_partial` work in progress.)
 -/
 import Knx.Enc
+import Knx.Buf
 
 namespace Props.C15
 open Knx
@@ -85,6 +86,171 @@ theorem svcdib_size (d : SvcDIB) : (encSvcDIB d).length = sizeSvcDIB d := by
 
 theorem hostinfo_size (h : HostInfo) : (encHostInfo h).length = 8 := rfl
 
+/-! ### Writing into an existing buffer (Knx.Buf: the `Pack` procedures statement by statement)
+
+  `Writes p e`: for EVERY buffer with room for `e` - whatever it held before - procedure `p` does not
+  panic, leaves exactly `e` at the front and does not touch a byte behind it. -/
+section buffer
+open Knx.Buf
+
+theorem info_buffer (info : List Byte) : Writes (packInfo info) (encInfo info) := by
+  intro b hb
+  unfold packInfo encInfo at *
+  cases b with
+  | nil => split at hb <;> simp at hb
+  | cons b0 t =>
+    by_cases h : info.length > 255
+    · simp only [h, if_true, List.length_cons, List.length_take] at hb ⊢
+      have ht : min 255 info.length ≤ t.length := by omega
+      simp [seq, setAt, sub, copyTo, List.take_of_length_le (l := List.take 255 info) (by simp; omega)]
+    · simp only [h, if_false, List.length_cons] at hb ⊢
+      have ht : info.length ≤ t.length := by omega
+      have hl : List.take info.length info = info := List.take_length
+      simp [seq, setAt, sub, copyTo, hl, List.take_of_length_le ht]
+
+theorem tpci_or_zero (x : Byte) : x ||| 0 = x := by simp
+
+theorem two_le (b : Buf) (h : 2 ≤ b.length) : ∃ b0 b1 rest, b = b0 :: b1 :: rest := by
+  match b, h with
+  | b0 :: b1 :: rest, _ => exact ⟨b0, b1, rest, rfl⟩
+
+theorem three_le (b : Buf) (h : 3 ≤ b.length) : ∃ b0 b1 b2 rest, b = b0 :: b1 :: b2 :: rest := by
+  match b, h with
+  | b0 :: b1 :: b2 :: rest, _ => exact ⟨b0, b1, b2, rest, rfl⟩
+
+theorem tpdu_buffer (t : TPDU) : Writes (packTPDU t) (encTPDU t) := by
+  intro b hb
+  cases t with
+  | ctl numbered sq cmd =>
+    obtain ⟨b0, b1, rest, rfl⟩ := two_le b hb
+    cases numbered <;> simp [packTPDU, encTPDU, tpciOr, tpciBits, seq, setAt, modAt]
+  | app numbered sq cmd data =>
+    have hsz := tpdu_size (.app numbered sq cmd data)
+    rw [hsz] at hb
+    simp only [sizeTPDU] at hb
+    simp only [packTPDU, encTPDU]
+    have hdl : 1 ≤ appDataLength data := by unfold appDataLength; split <;> (try split) <;> omega
+    have hsrc : (if data.length > appDataLength data then data.take (appDataLength data) else data)
+        = data.take (appDataLength data) := by
+      split
+      · rfl
+      · exact (List.take_of_length_le (by omega)).symm
+    have hlen : (data.take (appDataLength data)).length ≤ appDataLength data := by
+      simp [List.length_take]; omega
+    have hone : data.take (appDataLength data) = [] → appDataLength data = 1 := by
+      intro hd
+      rcases data with _ | ⟨x, xs⟩
+      · rfl
+      · rw [List.take_cons (by omega)] at hd; cases hd
+    rw [hsrc]
+    generalize appDataLength data = dl at *
+    obtain ⟨b0, b1, b2, rest, rfl⟩ := three_le b (by omega)
+    simp only [List.length_cons] at hb
+    rcases hd : data.take dl with _ | ⟨d0, ds⟩
+    · have h1 := hone hd
+      subst h1
+      cases numbered <;>
+        simp [tpciOr, tpciBits, seq, setAt, modAt, sub, copyTo]
+    · have hds : ds.length ≤ rest.length := by
+        rw [hd] at hlen
+        simp only [List.length_cons] at hlen; omega
+      cases numbered <;>
+        simp [tpciOr, tpciBits, seq, setAt, modAt, sub, copyTo, List.take_of_length_le hds]
+
+theorem ldata_buffer (l : LData) : Writes (packLData l) (encLData l) := by
+  have h : AllWrite
+      [iPk (packInfo l.info) (sizeInfo l.info), iU8 l.ctrl1, iU8 l.ctrl2, iU16 l.src, iU16 l.dst,
+       iPk (packTPDU l.tpdu) (sizeTPDU l.tpdu)]
+      [encInfo l.info, [l.ctrl1], [l.ctrl2], encU16 l.src, encU16 l.dst, encTPDU l.tpdu] :=
+    .cons (.pk (info_buffer _) (info_size _)) (.cons (.u8 _) (.cons (.u8 _) (.cons (.u16 _) (.cons (.u16 _)
+      (.cons (.pk (tpdu_buffer _) (tpdu_size _)) .nil)))))
+  exact (Writes.some h).congr (by simp [encLData])
+
+theorem cemi_body_buffer (m : Cemi) : Writes (packCemiBody m) (encCemiBody m) := by
+  cases m <;> first | exact ldata_buffer _ | exact Writes.copy _
+
+theorem cemi_body_size (m : Cemi) : (encCemiBody m).length = sizeCemiBody m := by
+  cases m <;> simp [encCemiBody, sizeCemiBody, ldata_size]
+
+theorem cemi_buffer (m : Cemi) : Writes (packCemi m) (encCemi m) := by
+  have h : AllWrite [iU8 m.code, iPk (packCemiBody m) (sizeCemiBody m)] [[m.code], encCemiBody m] :=
+    .cons (.u8 _) (.cons (.pk (cemi_body_buffer m) (cemi_body_size m)) .nil)
+  exact (Writes.some h).congr (by simp [encCemi])
+
+theorem hostinfo_buffer (h : HostInfo) : Writes (packHostInfo h) (encHostInfo h) := by
+  have hw : AllWrite [iU8 8, iU8 h.proto, iBytes [h.a0, h.a1, h.a2, h.a3], iU16 h.port]
+      [[8], [h.proto], [h.a0, h.a1, h.a2, h.a3], encU16 h.port] :=
+    .cons (.u8 _) (.cons (.u8 _) (.cons (.bytes _) (.cons (.u16 _) .nil)))
+  exact (Writes.some hw).congr (by simp [encHostInfo])
+
+theorem devinfo_buffer (d : DevInfo) : Writes (packDevInfo d) (encDevInfo d) := by
+  have hw : AllWrite
+      [iU8 54, iU8 d.ty, iU8 d.medium, iU8 d.status, iU16 d.source, iU16 d.project,
+       iBytes (fit 6 d.serial), iBytes (fit 4 d.mcast), iBytes (fit 6 d.hw), iBytes (encName d.name)]
+      [[54], [d.ty], [d.medium], [d.status], encU16 d.source, encU16 d.project,
+       fit 6 d.serial, fit 4 d.mcast, fit 6 d.hw, encName d.name] :=
+    .cons (.u8 _) (.cons (.u8 _) (.cons (.u8 _) (.cons (.u8 _) (.cons (.u16 _) (.cons (.u16 _)
+      (.cons (.bytes _) (.cons (.bytes _) (.cons (.bytes _) (.cons (.bytes _) .nil)))))))))
+  exact (Writes.some hw).congr (by simp [encDevInfo])
+
+theorem pair_at (x y : Byte) (b : Buf) (h : 2 ≤ b.length) :
+    Buf.packSome [iU8 x, iU8 y] 0 b = some (x :: y :: b.drop 2) := by
+  have hw : AllWrite [iU8 x, iU8 y] [[x], [y]] := .cons (.u8 _) (.cons (.u8 _) .nil)
+  have := Writes.some hw b (by simpa using h)
+  simpa using this
+
+theorem splice_take (pre mid post : List Byte) (n : Nat) (h : (pre ++ mid).length = n) :
+    (pre ++ (mid ++ post)).take n = pre ++ mid := by
+  rw [← List.append_assoc, List.take_left' h]
+
+theorem splice_drop (pre mid post : List Byte) (n k : Nat) (h : (pre ++ mid).length = n) :
+    (pre ++ (mid ++ post)).drop (n + k) = post.drop k := by
+  rw [← List.append_assoc, List.drop_append, List.drop_eq_nil_of_le (by omega), List.nil_append, h]
+  congr 1; omega
+
+/-- the family loop, from any offset: everything before the offset and behind the families is left alone -/
+theorem families_buffer : ∀ (fs : List (Byte × Byte)) (off : Nat) (b : Buf),
+    off + 2 * fs.length ≤ b.length →
+      packFamilies fs off b = some (b.take off ++ fs.flatMap (fun f => [f.1, f.2]) ++ b.drop (off + 2 * fs.length)) := by
+  intro fs
+  induction fs with
+  | nil => intro off b _; simp [packFamilies]
+  | cons f fs ih =>
+    intro off b h
+    simp only [List.length_cons] at h
+    have hoff : off ≤ b.length := by omega
+    have h2 := pair_at f.1 f.2 (b.drop off) (by simp; omega)
+    simp only [packFamilies, seq, sub, hoff, if_true, h2, Option.map_some, Option.bind_some]
+    have hpre : (b.take off ++ [f.1, f.2]).length = off + 2 := by simp [List.length_take]; omega
+    have hform : b.take off ++ f.1 :: f.2 :: (b.drop off).drop 2
+        = b.take off ++ ([f.1, f.2] ++ (b.drop off).drop 2) := by simp
+    have hlen : (b.take off ++ f.1 :: f.2 :: (b.drop off).drop 2).length = b.length := by
+      simp [List.length_take, List.length_drop]; omega
+    rw [ih (off + 2) _ (by rw [hlen]; omega), hform, splice_take _ _ _ _ hpre, splice_drop _ _ _ _ _ hpre]
+    simp only [List.drop_drop, List.flatMap_cons, List.append_assoc, List.length_cons]
+    have e : off + 2 + 2 * fs.length = off + 2 * (fs.length + 1) := by omega
+    rw [e]
+
+theorem svcdib_buffer (d : SvcDIB) : Writes (packSvcDIB d) (encSvcDIB d) := by
+  intro b hb
+  have hsz := svcdib_size d
+  rw [hsz] at hb
+  simp only [sizeSvcDIB] at hb
+  have h2 := pair_at (BitVec.ofNat 8 (sizeSvcDIB d)) d.ty b (by omega)
+  simp only [packSvcDIB, seq, h2, Option.bind_some]
+  have hlen : (BitVec.ofNat 8 (sizeSvcDIB d) :: d.ty :: b.drop 2).length = b.length := by
+    simp [List.length_drop]; omega
+  rw [families_buffer d.families 2 _ (by rw [hlen]; omega)]
+  simp only [encSvcDIB, List.length_append, List.length_cons, List.length_nil, flatMap_pair_length,
+    List.take_succ_cons, List.take_zero, List.drop_succ_cons, List.drop_drop, List.cons_append,
+    List.nil_append, List.append_assoc]
+  have e : 2 + 2 * d.families.length = (2 * d.families.length) + 1 + 1 := by omega
+  rw [e, List.drop_succ_cons, List.drop_succ_cons, List.drop_drop]
+  have e2 : 2 + 2 * d.families.length = 2 * d.families.length + 1 + 1 := by omega
+  first | rfl | rw [e2] | (congr 5; omega)
+
+end buffer
+
 /-- every service `Pack` writes exactly `Size()` bytes -/
 theorem body_size (v : Service) (b : List Byte) (h : encBody v = some b) :
     sizeBody v = some b.length := by
@@ -113,6 +279,133 @@ theorem header_length (v : Service) (frame : List Byte) (h : encFrame v = some f
     simp only [encU16, List.cons_append, List.nil_append, List.getD_cons_succ, List.getD_cons_zero,
       be16_hi_lo, List.length_cons, BitVec.toNat_ofNat]
     omega
+
+section buffer2
+open Knx.Buf
+
+theorem four_at (x0 x1 x2 x3 : Byte) : Writes (setAt 0 x0 ;; setAt 1 x1 ;; setAt 2 x2 ;; setAt 3 x3) [x0, x1, x2, x3] := by
+  intro b hb
+  match b, hb with
+  | b0 :: b1 :: b2 :: b3 :: rest, _ => simp [seq, setAt]
+
+theorem two_at (x0 x1 : Byte) : Writes (setAt 0 x0 ;; setAt 1 x1) [x0, x1] := by
+  intro b hb
+  obtain ⟨b0, b1, rest, rfl⟩ := two_le b hb
+  simp [seq, setAt]
+
+/-- `p ;; sub n q` where `p` writes `n` bytes -/
+theorem Writes.then {p q : Packer} {e1 e2 : List Byte} {n : Nat} (hp : Writes p e1) (hn : e1.length = n)
+    (hq : Writes q e2) : Writes (p ;; sub n q) (e1 ++ e2) := hn ▸ Writes.seq_sub hp hq
+
+/-- every service `Pack` method: for every buffer with room, the bytes `Knx.Enc` lists, nothing else touched -/
+theorem body_buffer (v : Service) (p : Packer) (e : List Byte) (hp : packBody v = some p) (he : encBody v = some e) :
+    Writes p e := by
+  cases v with
+  | searchReq h =>
+    simp only [packBody, encBody, Option.some.injEq] at hp he; subst hp he; exact hostinfo_buffer h
+  | descrReq h =>
+    simp only [packBody, encBody, Option.some.injEq] at hp he; subst hp he; exact hostinfo_buffer h
+  | searchRes c dev svc =>
+    simp only [packBody, encBody, Option.some.injEq] at hp he; subst hp he
+    have hw : AllWrite [iPk (packHostInfo c) 8, iPk (packDevInfo dev) 54, iPk (packSvcDIB svc) (sizeSvcDIB svc)]
+        [encHostInfo c, encDevInfo dev, encSvcDIB svc] :=
+      .cons (.pk (hostinfo_buffer _) (hostinfo_size _)) (.cons (.pk (devinfo_buffer _) (devinfo_size _))
+        (.cons (.pk (svcdib_buffer _) (svcdib_size _)) .nil))
+    exact (Writes.some hw).congr (by simp)
+  | descrRes b =>
+    simp only [packBody, encBody, Option.some.injEq] at hp he; subst hp he
+    have hw : AllWrite [iPk (packDevInfo b.dev) 54, iPk (packSvcDIB b.svc) (sizeSvcDIB b.svc)]
+        [encDevInfo b.dev, encSvcDIB b.svc] :=
+      .cons (.pk (devinfo_buffer _) (devinfo_size _)) (.cons (.pk (svcdib_buffer _) (svcdib_size _)) .nil)
+    exact (Writes.some hw).congr (by simp)
+  | connReq c t layer =>
+    simp only [packBody, encBody, Option.some.injEq] at hp he; subst hp he
+    have hw : AllWrite [iPk (packHostInfo c) 8, iPk (packHostInfo t) 8] [encHostInfo c, encHostInfo t] :=
+      .cons (.pk (hostinfo_buffer _) (hostinfo_size _)) (.cons (.pk (hostinfo_buffer _) (hostinfo_size _)) .nil)
+    have h1 : Writes (Buf.packSome [iPk (packHostInfo c) 8, iPk (packHostInfo t) 8] 0) (encHostInfo c ++ encHostInfo t) :=
+      (Writes.some hw).congr (by simp)
+    exact (Writes.then h1 (by simp [hostinfo_size]) (four_at 4 4 layer 0)).congr (by simp)
+  | connRes ch st c =>
+    simp only [packBody, encBody, Option.some.injEq] at hp he; subst hp he
+    by_cases hst : (st == 0) = true
+    · simp only [hst, if_true]
+      have hw : AllWrite [iU8 ch, iU8 0, iPk (packHostInfo c) 8, iBytes [4, 4, 0, 0]]
+          [[ch], [0], encHostInfo c, [4, 4, 0, 0]] :=
+        .cons (.u8 _) (.cons (.u8 _) (.cons (.pk (hostinfo_buffer _) (hostinfo_size _)) (.cons (.bytes _) .nil)))
+      exact (Writes.some hw).congr (by simp)
+    · simp only [hst, if_false]
+      have hw : AllWrite [iU8 ch, iU8 st] [[ch], [st]] := .cons (.u8 _) (.cons (.u8 _) .nil)
+      exact (Writes.some hw).congr (by simp)
+  | connStateReq ch st c =>
+    simp only [packBody, encBody, Option.some.injEq] at hp he; subst hp he
+    exact (Writes.then (two_at ch st) rfl (hostinfo_buffer c)).congr (by simp)
+  | discReq ch st c =>
+    simp only [packBody, encBody, Option.some.injEq] at hp he; subst hp he
+    exact (Writes.then (two_at ch st) rfl (hostinfo_buffer c)).congr (by simp)
+  | connStateRes ch st =>
+    simp only [packBody, encBody, Option.some.injEq] at hp he; subst hp he; exact two_at ch st
+  | discRes ch st =>
+    simp only [packBody, encBody, Option.some.injEq] at hp he; subst hp he; exact two_at ch st
+  | tunnelReq ch sq m =>
+    simp only [packBody, encBody, Option.some.injEq] at hp he; subst hp he
+    exact (Writes.then (four_at 4 ch sq 0) rfl (cemi_buffer m)).congr (by simp)
+  | tunnelRes ch sq st =>
+    simp only [packBody, encBody, Option.some.injEq] at hp he; subst hp he; exact four_at 4 ch sq st
+  | routingInd m =>
+    simp only [packBody, encBody, Option.some.injEq] at hp he; subst hp he; exact cemi_buffer m
+  | routingLost _ _ => simp [packBody] at hp
+  | routingBusy _ _ => simp [packBody] at hp
+  | unknown id d =>
+    simp only [packBody, encBody, Option.some.injEq] at hp he; subst hp he; exact Writes.copy d
+
+/-- `knxnet.Pack`: for EVERY buffer with room for the frame - whatever it held before - the call does
+    not panic, the first `len(frame)` bytes are the frame (so they do not depend on the old content),
+    and every byte behind them keeps its value -/
+theorem frame_buffer (v : Service) (p : Packer) (frame : List Byte) (hp : packFrame v = some p)
+    (he : encFrame v = some frame) : Writes p frame := by
+  unfold packFrame at hp
+  unfold encFrame at he
+  cases hpb : packBody v with
+  | none => simp [hpb] at hp
+  | some pb =>
+    cases heb : encBody v with
+    | none => simp [heb] at he
+    | some eb =>
+      have hs := body_size v eb heb
+      simp only [hpb, hs, Option.some.injEq] at hp
+      simp only [heb, hs, Option.some.injEq] at he
+      subst hp he
+      have hb := body_buffer v pb eb hpb heb
+      have h01 : Writes (setAt 0 6 ;; setAt 1 16) [6, 16] := two_at 6 16
+      have h2 := Writes.then (n := 2) h01 rfl (Writes.u16 v.id)
+      have h4 := Writes.then (n := 4) h2 (by simp [encU16]) (Writes.u16 (BitVec.ofNat 16 (eb.length + 6)))
+      have h6 := Writes.then (n := 6) h4 (by simp [encU16]) hb
+      exact h6.congr (by simp [List.append_assoc])
+
+/-- the same for a cEMI message on its own -/
+theorem cemi_frame_buffer (m : Cemi) : Writes (packCemi m) (encCemi m) := cemi_buffer m
+
+/-- prefill independence, stated outright: two buffers of exactly the frame's size end up identical -/
+theorem frame_prefill_independent (v : Service) (p : Packer) (frame : List Byte) (hp : packFrame v = some p)
+    (he : encFrame v = some frame) (b b' : Buf) (hb : b.length = frame.length) (hb' : b'.length = frame.length) :
+    p b = some frame ∧ p b' = some frame := by
+  have h := frame_buffer v p frame hp he
+  constructor
+  · have := h b (by omega); rw [this, List.drop_eq_nil_of_le (by omega)]; simp
+  · have := h b' (by omega); rw [this, List.drop_eq_nil_of_le (by omega)]; simp
+
+/-- guard bytes: whatever follows the frame's room in a longer buffer is still there afterwards -/
+theorem frame_guard_untouched (v : Service) (p : Packer) (frame : List Byte) (hp : packFrame v = some p)
+    (he : encFrame v = some frame) (b guard : Buf) (hb : b.length = frame.length) :
+    p (b ++ guard) = some (frame ++ guard) := by
+  have h := frame_buffer v p frame hp he (b ++ guard) (by simp; omega)
+  rw [h, ← hb, List.drop_left]
+
+/-- non-vacuity: a tunnelling request into a 0xFF-filled buffer with two guard bytes -/
+example : (packFrame (.tunnelRes 7 3 0)).bind (fun p => p (List.replicate 12 0xFF))
+    = some [6, 16, 4, 0x21, 0, 10, 4, 7, 3, 0, 0xFF, 0xFF] := by decide
+
+end buffer2
 
 /-- variable parts longer than their protocol field are truncated to the field limit -/
 theorem info_truncated (info : List Byte) (h : info.length > 255) :
